@@ -73,8 +73,16 @@ def run(tier, v, wd, replay=None):
     run_vectors(v, wd, repo, "./cmd/", "TestVerifC20RandomWalk", infile, env={"VERIF_C20_WALKS": "400" if tier == "quick" else "4000"},
                 tags=tags, timeout=600, outname="c20_walk.json")
     run_vectors(v, wd, repo, "./cmd/", "TestVerifC20StaticPaths", infile, tags=tags, timeout=600, outname="c20_static.json")
+    # the retirement of the old generation always ends, within what is left of the switch budget (Retire.tla)
+    rfile = os.path.join(wd.path, "c20retire.ndjson")
+    r = vlib.tlc(wd, "Retire", "Retire_mc.cfg", emit_to=rfile, timeout=600)
+    v.add_tlc(r)
+    if r.violated:
+        raise vlib.Infra("Retire.tla: %s violated" % r.violated)
+    run_vectors(v, wd, repo, "./cmd/", "TestVerifC20Retire", rfile, tags=tags, timeout=900, outname="c20_retire.json")
     v.coverage["exhaustive"] = True
-    v.assumptions += ["the worker and main-loop goroutines of cmd/run.go are represented by skeletons that call the real primitives "
+    v.assumptions += ["retirement: retireControlPlaneConnections / remainingReloadRetirementBudget run on a fake old generation (session count, idle channel, abort) in virtual time; closing the old control plane itself is not driven",
+                      "the worker and main-loop goroutines of cmd/run.go are represented by skeletons that call the real primitives "
                       "(tryQueueReloadRequest, coalesceReloadRequest, clearReloadPending, finishReloadSuccess/Failure, beginHandoff, "
                       "releaseReloadPendingAfterRetirement); the static path check ties every exit of the real worker iteration to that skeleton",
                       "the content of each stage (building a control plane) is abstracted"]
